@@ -16,9 +16,11 @@ PROPS["C01"] = dict(
           "malformed / growth-step-sized), partitions are exhaustive for tiny streams, all single and "
           "pair cuts for streams <= 160 bytes, structured (per NUL, fixed sizes around 256) and random "
           "otherwise; a case is distinct by the hash of (stream bytes, targets, cut positions); every "
-          "case has >= 1 frame and ends with a close, so none is trivial"),
+          "case has >= 1 frame and ends with a close, so none is trivial"
+          " ; plus a real-socket layer (tokio current-thread / multi-thread and smol transports over real Unix sockets, DESIGN 2.4): a blocking peer writes 1..24 good / malformed frames (up to 600 KB) in pieces and closes or only shuts down its sending side, the reader starting before or (forced by joining the writer) after the close"),
     oracle=("receive j == serde_json::from_slice::<T_j>(frame j) (decoded value or error), receive n+1 "
-            "== end-of-stream; no extra/missing/reordered results; no panic"),
+            "== end-of-stream; no extra/missing/reordered results; no panic"
+            "; real sockets: one receive result per frame as in the reference, then end-of-stream, never earlier"),
     assumptions=["serde_json::from_slice on the NUL-delimited frame is the reference decoder",
                  "reply frames whose error member nobody recognises are excluded here (C04 decides them)"],
     floor_quick=50_000, floor_thorough=1_000_000,
@@ -42,10 +44,12 @@ PROPS["C02"] = dict(
           "generator issuing every serde data-model call, some poisoned (non-string map key, Serialize impl "
           "that fails); sizes are steered with the write-position hook so that every free-space value "
           "0..=600 is met at a message start; a history is distinct by the hash of its (operation, size) "
-          "sequence; every history contains at least one message"),
+          "sequence; every history contains at least one message"
+          " ; 'big' histories with tens of KiB up to 1 MiB pending at flush time; plus a real-socket layer (tokio current-thread / multi-thread and smol transports over real Unix sockets, DESIGN 2.4): histories with messages of 70..520 KB and pipelines of hundreds of calls towards a raw peer that starts reading 0..30 ms late"),
     oracle=("model = list of serde_json::to_vec(msg)+NUL for accepted messages: each flush/send issues exactly one "
             "write equal to the concatenation of the pending list; empty flush writes nothing; acceptance agrees "
-            "with serde_json; refused messages leave no bytes; total stream == concatenation of accepted messages"),
+            "with serde_json; refused messages leave no bytes; total stream == concatenation of accepted messages"
+            "; real sockets: the bytes the raw peer read == the concatenation of the accepted messages"),
     assumptions=["serde_json::to_vec is the reference encoding", "transport write errors are out of scope here (C09)"],
     floor_quick=50_000, floor_thorough=1_000_000,
     steps=[
@@ -66,11 +70,13 @@ PROPS["C03"] = dict(
           "plus integer boundary sets, random f64/f32 and random nested trees issuing every serde data-model call, "
           "encoded through the cfg(zlink_verif) to_slice hook at exact, short and all buffer lengths 0..=len+2 and "
           "through send_error/send_reply behind fillers that vary the free space; distinct = distinct random "
-          "trees (hash of Debug) + members of the exhaustive domains"),
+          "trees (hash of Debug) + members of the exhaustive domains"
+          " ; plus a real-socket layer (tokio current-thread / multi-thread and smol transports over real Unix sockets, DESIGN 2.4): values from the same model inside messages of up to 520 KB and long pipelines, read by a raw peer that starts late (partial kernel writes)"),
     oracle=("success => bytes == serde_json::to_vec, valid UTF-8, no byte < 0x20; buffer shorter than the encoding => "
             "BufferTooSmall, never Ok; canary bytes after the slice untouched; zlink refusing is legitimate only if "
             "serde_json refuses too or the value has a map key that is not string/char/integer/unit-variant; a "
-            "refused value leaves no bytes on the wire"),
+            "refused value leaves no bytes on the wire"
+            "; real sockets: the bytes the raw peer read == serde_json's encodings + NUL of the accepted messages, in order"),
     assumptions=["serde_json::to_vec is the reference encoder"],
     floor_quick=2_000_000, floor_thorough=100_000_000,
     exhaustive_possible=False,
@@ -91,7 +97,8 @@ PROPS["C04"] = dict(
           "(parameter type, error type) pairs x {receive_reply, call_method, generated proxy method} x 6 connection "
           "histories (fresh; after one / two continuing replies of a stream; after an error reply; after a plain reply; "
           "after a final reply) x 8 frame sizes (as is, and padded with insignificant white space to 257 ... 70000 bytes "
-          "incl. 4095/4096/4097); distinct = (frame, types, path, history, size)"),
+          "incl. 4095/4096/4097); distinct = (frame, types, path, history, size)"
+          " ; every frame with an error member also with continues:true / continues:false"),
     oracle=("from the frame as a serde_json::Value: no error member => success iff parameters decode as P; error names a "
             "standard service error that decodes => Err(VarlinkService(e)); else decodes directly as E => Ok(Err(e)); "
             "else anything but Ok(Ok(_)); `error: null` is not judged"),
@@ -110,7 +117,8 @@ PROPS["C07"] = dict(
           "suspension points at which the receive future is dropped and re-created); exhaustive over all 2^12 "
           "(thorough 2^14) subsets for streams with that many suspension points, every-k-th for every k, all, and "
           "random subsets beyond; also call_method abandoned in its receive phase; only cases with >= 1 "
-          "cancellation count as distinct non-trivial"),
+          "cancellation count as distinct non-trivial"
+          " ; mixed consumers: the replies of a peer are taken off one connection by a random sequence of receive_reply / call_method / chains (stream polled with next()), each of which may be abandoned at any suspension point, after which the next operation of whatever kind carries on; plus a real-socket layer (tokio current-thread / multi-thread and smol transports over real Unix sockets, DESIGN 2.4): a writer thread dribbles 6..20 messages (0 B..70 KB) into the socket in pieces while every receive is wrapped in a 0..3 ms timer and started again when it fires"),
     oracle="sequence of results == C01 reference sequence (serde_json on NUL-split frames, then end-of-stream)",
     assumptions=["the scripted read half is itself cancel-safe (returns Pending without consuming data)"],
     floor_quick=50_000, floor_thorough=1_000_000,
@@ -130,10 +138,12 @@ PROPS["C17"] = dict(
           "position, message length) pairs; production-limit build: 100 MiB+2 steps unterminated, 100 MiB-2 accepted, "
           "growth-step boundaries; lowered-limit build (cfg zlink_verif_small_buf, 64 KiB): every wire size up to "
           "limit+2*step+2 and every end position near each multiple of 256 and in the last 2 KiB before the limit; "
-          "distinct = (size, chunking) / (pos, len)"),
+          "distinct = (size, chunking) / (pos, len)"
+          " ; the message under test is a padded string, a message with a tail of other value kinds, or mostly a byte array (serialize_bytes), submitted with enqueue_call or (a third of the cases) with send_call behind the queued bytes"),
     oracle=("wire size < limit => accepted with intact content; >= limit+step => BufferOverflow (never a hang, other error "
             "or acceptance); in between either; outbound refusal writes nothing, earlier messages are flushed intact, "
-            "the connection stays usable; hook: buffer length never exceeds limit+step; peak heap stays within 3x limit"),
+            "the connection stays usable; hook: buffer length never exceeds limit+step; peak heap stays within 3x limit"
+            " a refused message makes no write call at all; an accepted send_call issues exactly one write"),
     assumptions=["the lowered limit exercises the same comparison sites as the production constant (compile-time cfg)"],
     floor_quick=20_000, floor_thorough=100_000,
     steps=[
@@ -151,11 +161,13 @@ PROPS["C06"] = dict(
           "error / k=0..3 continuing replies then final success or error), 0..2 trailing frames of a later exchange "
           "(in the same burst or delivered after the stream ended) and chunkings of the reply bytes (whole, one frame "
           "per read, random cuts, one byte per read); every reply carries a unique tag; distinct = hash of (word, "
-          "script, trailing, cuts, delivery mode)"),
+          "script, trailing, cuts, delivery mode)"
+          " ; long runs (100..1030 replies owed to one chain, buffered at once / a few big chunks / one frame per read); big chains (calls of 9..140 KB each); the later exchange consumed by a second chain instead of single receives; plus a real-socket layer (tokio current-thread / multi-thread and smol transports over real Unix sockets, DESIGN 2.4): a scripted blocking peer reads the chain's calls and writes the owed replies (up to 140 per more-call) and the later frames in pieces"),
     oracle=("exactly one write holding all calls in chain order, byte-equal to serde_json's encodings; items yielded == owed "
             "replies in order, then None, without a transport poll beyond the last owed reply (the executor sees a stall "
             "if the stream waits); a chain owing nothing makes zero read polls; afterwards plain receive_reply returns the "
-            "trailing frames intact and in order"),
+            "trailing frames intact and in order"
+            "; real sockets: calls byte-equal at the peer, items == owed, later frames intact"),
     assumptions=["chunks never end inside a trailing frame (that would only delay, see DESIGN C06 false-alarm guard)"],
     floor_quick=10_000, floor_thorough=100_000,
     exhaustive_possible=False,
@@ -181,7 +193,8 @@ PROPS["C11"] = dict(
           "the native layer runs with a hostile allocator (every realloc moves, freed blocks are overwritten with 0xDD); after "
           "each next(), after a failure and after the end of the stream every held item is re-read and compared with an owned "
           "copy; cases are classified by what was observed (did the transport deliver bytes while items were held), not "
-          "by intention; distinct = hash of (sizes, kinds, delivery, seed)"),
+          "by intention; distinct = hash of (sizes, kinds, delivery, seed)"
+          " ; in half of the same-read cases stray terminators (empty frames) sit inside the burst and / or a frame of a later exchange waits in the transport behind it (damage is then reported under the same-read signature whether or not a read happened); every seventh case has replies with a byte that is not valid UTF-8; plus a real-socket layer (tokio current-thread / multi-thread and smol transports over real Unix sockets, DESIGN 2.4): a scripted peer writes the whole burst before the client asks for the first item (ordered by a channel), the client keeps and re-reads every item (native and ASan)"),
     oracle=("native: held text == copy taken when yielded; ASan: no heap-use-after-free report; Miri: no Stacked-Borrows / "
             "use-after-free report. Same-read and available-burst delivery must be clean under all three; separate-read "
             "delivery is the recorded known finding"),
@@ -222,12 +235,14 @@ PROPS["C08"] = dict(
           "the events {connection released to the listener, next chunk delivered, EOF}; ALL orders for small configurations "
           "(<= 2000 interleavings), seeded random orders beyond, where events may also be batched (several sockets become "
           "readable between two polls) or arrive from inside Service::handle (while the server is busy with another call); "
-          "Server::run is polled to quiescence after every step; distinct = hash of (scripts, cuts, step list)"),
+          "Server::run is polled to quiescence after every step; distinct = hash of (scripts, cuts, step list)"
+          " ; plus a real-socket layer (tokio current-thread / multi-thread and smol transports over real Unix sockets, DESIGN 2.4): real Server::run; 1..4 blocking clients pipeline 1..10 calls (some oneway / failing) whose answers are up to 420 KB, optionally shut down their sending side, and only then start reading; a sentinel call closes every script"),
     oracle=("per connection, from a sequential reference of the service: output split at NUL == the answer of every non-oneway "
             "call in call order (as JSON values; continues:false == absent) and nothing for oneway calls; every write is one "
             "document + one NUL; at every quiescent point the output is a prefix of that and complete whenever the bytes sent so "
             "far end on a frame boundary; no frame of another client; the service saw each call exactly once in order; the server "
-            "future is still pending; no panic"),
+            "future is still pending; no panic"
+            "; real sockets: per client the frames == the reference answers in order, nothing behind the sentinel's answer; the service log shows each call once, in order; the server future does not complete or panic"),
     assumptions=SRV_ASSUME + [WAKE_NOTE],
     floor_quick=20_000, floor_thorough=1_000_000,
     steps=[
@@ -248,11 +263,13 @@ PROPS["C09"] = dict(
           "stray terminators (empty frames), oversized frame (lowered-limit build)} x position 0..2 in the faulty client's script x 1..3 healthy clients (plain, "
           "oneway, error and streaming calls) x event orders (all orders when <= 300, else sampled with batched / in-handle "
           "arrivals); plus two churn histories (26000 / 6000 faulty clients of six kinds one after the other, thorough 120000, with a "
-          "resident healthy client calling throughout and a newcomer at the end); distinct = hash of (scripts, cuts, fault placement, step list)"),
+          "resident healthy client calling throughout and a newcomer at the end); distinct = hash of (scripts, cuts, fault placement, step list)"
+          " ; plus a real-socket layer (tokio current-thread / multi-thread and smol transports over real Unix sockets, DESIGN 2.4): real server whose service hands out notified::State streams; 2..5 subscribers of which one or two vanish (close / half a frame then close / garbage then close / close with unread data); the state is then set 2..5 more times"),
     oracle=("relational: run A = full schedule, run B = same schedule with every event of the faulty client deleted; for every "
             "healthy client output_A == output_B byte for byte, the service saw the same healthy calls, a healthy connection is "
             "not closed, Server::run is still pending, nothing panics; additionally the healthy clients match the sequential "
-            "reference model of C08/C10"),
+            "reference model of C08/C10"
+            "; real sockets: every healthy subscriber's values increase and end with the last value set, control client and a newcomer are answered (a value that never arrives is a violation only if 11 s later the server answers a fresh client at once and nothing waits in the subscriber's socket; otherwise inconclusive)"),
     assumptions=SRV_ASSUME + [WAKE_NOTE, "accept() errors are not in the property's fault list and are not injected"],
     floor_quick=10_000, floor_thorough=500_000,
     steps=[
@@ -273,13 +290,15 @@ PROPS["C10"] = dict(
           "with plain / error / oneway calls pipelined before and behind them, delivered in whole-frame chunks; optional write "
           "failure at a stream item; x an order of the events {accept, deliver chunk, stream produces item, stream ends}; ALL "
           "orders for small configurations, seeded random (with batched and in-handle events) beyond; distinct = hash of "
-          "(scripts, cuts, step list)"),
+          "(scripts, cuts, step list)"
+          " ; streams under a sustained flood: one connection pipelines 150..400 calls while two or three subscribers (each with a call pipelined behind the subscription) have open streams, some of which produce items or end from inside successive handle() calls while others stay quiet; plus a real-socket layer (tokio current-thread / multi-thread and smol transports over real Unix sockets, DESIGN 2.4): real server; workers pipeline [Echo?, Job(more), Echo...], Job is answered through a notified::Once stream that a control client finishes later in random order; watchers of a notified::State"),
     oracle=("per-connection sequential model evaluated at EVERY quiescent point: a streaming call's items appear in production "
             "order with the flags the service set; nothing pipelined behind it is answered before the stream ends; afterwards the "
             "calls behind it are answered in order, none lost or duplicated (bytes + service log); every complete call of a "
             "connection not parked behind an open stream is answered (other clients are served while a stream is open); no "
             "produced item stays undelivered; an open subscription of a writable client is never dropped; after a failed write "
-            "no further write is attempted and the client is dropped"),
+            "no further write is attempted and the client is dropped"
+            "; bounded progress under load: an item that exists at tick t is on the wire after at most 3*((a+1)*(S+1)+N*(T+1))+6 further handle() invocations (a earlier unwritten items of the stream, S streams, N connections, T transitions); real sockets: the service has not seen a call behind an open stream (from its log), each worker's frames == reference in order, watchers converge"),
     assumptions=SRV_ASSUME + [WAKE_NOTE],
     floor_quick=20_000, floor_thorough=1_000_000,
     steps=[
@@ -300,7 +319,8 @@ PROPS["C18"] = dict(
           "configurations under two arrival patterns, seeded random beyond; every (call, waiting window) pair is one oracle "
           "evaluation target; distinct = hash of (scripts, step list); distinct service orders are counted separately; plus, on "
           "real sockets and runtimes: 1..2 flooders write bursts of 3..9 calls in one write, the service holds the first of them "
-          "inside handle() while 1..3 victims write their call (the blocking write has returned), then lets go"),
+          "inside handle() while 1..3 victims write their call (the blocking write has returned), then lets go"
+          " ; big calls (16..100 KB, hundreds of reads each) of the clients that do not flood; streams under a sustained flood (as C10) with the bounded-delay oracle for stream items"),
     oracle=("logical clock ticks on every event and every handle(); ready(call) = latest of (its bytes entered the transport, "
             "previous call of the connection served, connection accepted, stream in front of it ended); (a) in a window "
             "(ready, served) without accept/closure/stream transition no other connection is served twice; (b) in general at "
@@ -324,13 +344,15 @@ PROPS["C20"] = dict(
           "clone the state, drop a state handle, drop a subscriber}, executed on zlink-tokio AND zlink-smol with the harness' "
           "poll-by-poll executor; ALL sequences up to length 9 (thorough 11) over {set, subscribe, poll0, poll1, drop} with <= 4 "
           "sets and <= 2 subscribers that end in a poll, plus seeded random sequences (<= 6 sets, 3 subscribers, clones); Once: "
-          "all sequences over {poll, notify, drop notifier} up to length 7; distinct = hash of the sequence"),
+          "all sequences over {poll, notify, drop notifier} up to length 7; distinct = hash of the sequence"
+          " ; every sequence is additionally run with values that repeat under a per-sequence pattern (alternating / constant / pairs): the state holds {v, seq} whose equality looks at v only"),
     oracle=("every sequence is executed poll-by-poll and wake-driven (a subscriber that answered Pending is polled again only after its "
             "waker fired; an unwoken subscriber must have seen the latest value); per subscriber: values strictly increasing, all set after it subscribed, each item continues==true; a poll is Pending "
             "only if the subscriber has already yielded the latest value set since it subscribed; the stream ends only after "
             "every handle of the state is gone and never before the most recent value was delivered; set/get never panic. Once: "
             "exactly one item with continues==false then end; dropped notifier => end without item; Pending only before. The "
-            "same oracle is applied to both crates; trace equality between them is counted"),
+            "same oracle is applied to both crates; trace equality between them is counted"
+            "; with repeating values identity and order are checked by the set ordinal, convergence by value (what the subscriber saw last, or what the state held when it subscribed, == what was set last)"),
     assumptions=["State / Once need no reactor: a no-op waker executor observes every poll result"],
     floor_quick=100_000, floor_thorough=2_000_000,
     steps=[
@@ -488,7 +510,8 @@ PROPS["C16"] = dict(
           "with 0..6 fields and unit-variant enums, ReplyError enums with unit / struct / single-tuple variants; field types over "
           "every Type impl available (all integer widths, floats, bool, char, &str, String, (), serde_json::Value, paths, OS strings, "
           "net and time types, Option, Vec, slices, hash/btree sets and string-keyed maps, Box/Rc/Arc/Cell/RefCell/Cow, nested custom "
-          "types), lifetimes, doc comments on types, fields and variants; each item is one case (the descriptions are constants)"),
+          "types), lifetimes, doc comments on types, fields and variants; each item is one case (the descriptions are constants)"
+          " ; 30 (thorough 60) further items whose every documentable place carries documentation as people write it (fenced examples, tilde fences, unclosed fences, lists, tables, links, HTML, indented code)"),
     oracle=("TYPE / CUSTOM_TYPE / VARIANTS walked through the accessors == the expectation tree emitted next to the declaration "
             "(names, order, Varlink types, doc comments after trimming); an interface assembled from the derived piece renders to "
             "text that parses back to an equal description (accessor comparison and the library's PartialEq)"),
@@ -507,7 +530,8 @@ PROPS["C05"] = dict(
           "when <= 120, else 40 sampled; thorough: all), through serde_json and receive_call; random call and Reply<T> round trips; "
           "(c) a generated corpus of ReplyError enums (quick 16, thorough 60: unit and struct variants, renamed fields, lifetimes, "
           "options) with random field values; (d) {absent, null, {}} parameters x {GetInfo, field-less service errors, field-less "
-          "derived variants, proxy methods without outputs}, directly and through receive_call / receive_reply; distinct = the document"),
+          "derived variants, proxy methods without outputs}, directly and through receive_call / receive_reply; distinct = the document"
+          " ; error envelopes as a caller sees them: 8 error documents (derived unit / struct variants, service errors with and without parameters; {} and null spellings) x every member order x an unknown extra member in every position x with / without insignificant white space x {receive_reply, call_method, chain reply stream, proxy method}; corpus fields named like keywords and written as raw identifiers; corpus enums also decoded through receive_reply"),
     oracle=("encode == the method type's own members + exactly the set flags, no duplicate keys; decode: flags read back exactly and "
             "the method equals decoding the same object without the flags (Ok/Err agreement with the method type); decode(encode(c)) "
             "== c; derived errors encode as {error: <iface>.<Variant>[, parameters: {wire name: value}]}, on the wire too, decode from "
